@@ -15,6 +15,7 @@ import OutrankModel.Drv.C08
 import OutrankModel.Drv.C09
 import OutrankModel.Drv.C06
 import OutrankModel.Drv.Construct
+import OutrankModel.Drv.Pipeline
 /-!
 Line-protocol driver (DESIGN §2.2): one request per line on stdin, one reply per line on stdout.
 Adds only parsing and printing around the definitions the theorems are about.  Each property contributes one
@@ -39,7 +40,8 @@ def handlers : List (String × Handler) := [
   ("C09", C09Drv.drv),
   ("C06", C06Drv.drv),
   ("C10", ConstructDrv.drv10),
-  ("C11", ConstructDrv.drv11)
+  ("C11", ConstructDrv.drv11),
+  ("E2E", E2EDrv.drv)
 ]
 
 abbrev DState := List (String × Val)
